@@ -4,6 +4,7 @@ import (
 	"encoding/json"
 	"errors"
 	"fmt"
+	"reflect"
 )
 
 // Config is the parsed, user-authored configuration file.
@@ -734,7 +735,9 @@ func Parse(input []byte) (*Config, error) {
 	if err != nil {
 		return nil, err
 	}
-	if cfg == nil {
+	// A file that holds nothing but comments and empty channel wrappers
+	// ("inbound { }") defines nothing either: its formatted form is the empty file.
+	if cfg == nil || reflect.DeepEqual(*cfg, Config{Preamble: cfg.Preamble}) {
 		return nil, errors.New("empty config")
 	}
 	return cfg, nil
